@@ -15,10 +15,10 @@ from .values import SymReal, term_of
 class Atoms:
     def __init__(self, ctx):
         self.ctx = ctx
-        self.classes = []  # (representative leaf-ish term, z3 Bool)
+        self.classes = []  # (representative term, z3 Bool)
         self.queries = 0
 
-    def _coords_equal(self, ca, cb):
+    def _nums_equal(self, ca, cb):
         if len(ca) != len(cb):
             return False
         eqs = []
@@ -33,28 +33,46 @@ class Atoms:
         verdict, _ = self.ctx.valid(z3.And(*eqs))
         return verdict == "valid"
 
-    def atom_for_leaf(self, t):
-        verbs, fill, coords = t.args
+    _coords_equal = _nums_equal
+
+    def same(self, a, b):
+        """do two (non-connective) region terms provably denote the same Skia input?"""
+        while a.kind == "simplify":
+            a = a.args[0]
+        while b.kind == "simplify":
+            b = b.args[0]
+        if a is b or a.key == b.key:
+            return True
+        if a.kind != b.kind:
+            return False
+        if a.kind == "empty":
+            return True
+        if a.kind == "leaf":
+            return a.args[0] == b.args[0] and a.args[1] == b.args[1] and self._nums_equal(a.args[2], b.args[2])
+        if a.kind == "c2q":
+            return self.same(a.args[0], b.args[0]) and self._nums_equal([a.args[1]], [b.args[1]])
+        if a.kind == "xf":
+            return self.same(a.args[0], b.args[0]) and self._nums_equal(list(a.args[1]), list(b.args[1]))
+        if a.kind == "stroke":
+            (ca, pa), (cb, pb) = a.args, b.args
+            wa, capa, joina, ma, da, oa = pa
+            wb, capb, joinb, mb, db, ob = pb
+            if int(capa) != int(capb) or int(joina) != int(joinb) or len(da) != len(db):
+                return False
+            return self.same(ca, cb) and self._nums_equal([wa, ma, oa, *da], [wb, mb, ob, *db])
+        if a.kind == "op":
+            return a.args[0] == b.args[0] and self.same(a.args[1], b.args[1]) and self.same(a.args[2], b.args[2])
+        return False
+
+    def atom_for(self, t):
         for rep, b in self.classes:
-            if rep.kind != "leaf":
-                continue
-            rv, rf, rc = rep.args
-            if rv == verbs and rf == fill and self._coords_equal(rc, coords):
+            if self.same(rep, t):
                 return b
         b = z3.Bool(f"in!{len(self.classes)}")
         self.classes.append((t, b))
         return b
 
-    def atom_for_opaque(self, t, params_a):
-        """stroke / xf-of-opaque: atom keyed by child formula + provably equal params"""
-        for rep, b in self.classes:
-            if rep.kind != t.kind:
-                continue
-            if rep is t or rep.key == t.key:
-                return b
-        b = z3.Bool(f"in!{len(self.classes)}")
-        self.classes.append((t, b))
-        return b
+    atom_for_leaf = atom_for
 
 
 def formula(t, atoms):
@@ -62,10 +80,8 @@ def formula(t, atoms):
     if k == "empty":
         return z3.BoolVal(False)
     if k == "leaf":
-        return atoms.atom_for_leaf(t)
+        return atoms.atom_for(t)
     if k == "simplify":
-        return formula(t.args[0], atoms)
-    if k == "c2q":
         return formula(t.args[0], atoms)
     if k == "op":
         op, a, b = t.args
@@ -80,8 +96,8 @@ def formula(t, atoms):
             return z3.Xor(fa, fb)
         if op == FP.PathOp.REVERSE_DIFFERENCE:
             return z3.And(fb, z3.Not(fa))
-    if k in ("stroke", "xf"):
-        return atoms.atom_for_opaque(t, None)
+    if k in ("stroke", "xf", "c2q"):
+        return atoms.atom_for(t)
     raise ValueError(k)
 
 
